@@ -153,8 +153,12 @@ def run(ctx):
 
     # the values create_policy receives reach the policy message: selectors (family following the selector, not the tunnel endpoint),
     # ports, protocol, direction, index; and the template: endpoints, family, mode, IPsec protocol
-    from .c14 import check_policy_builder
+    from .c14 import check_policy_builder, check_layouts
     check_policy_builder(ctx, 'Y2')
+    # ... in the layout the kernel reads them: selector, policy, template and acquire mirrors against the UAPI structures
+    from ..uapi import Headers
+    check_layouts(ctx, Headers(), 'Y2', only=('xfrm.XfrmAddress', 'xfrm.XfrmSelector', 'xfrm.XfrmId', 'xfrm.XfrmUserTmpl',
+                                               'xfrm.XfrmUserPolicyInfo', 'xfrm.XfrmUserAcquire'), floor=60)
 
     # ---------------------------------------------------------------- Y3
     pa = ctx.func('ikesacontroller.IkeSaController.process_acquire')
@@ -237,6 +241,13 @@ def run(ctx):
         okr = parts <= {strip_ids(look[0].term) if look else None, strip_ids(ctors[0].term) if ctors else None} and len(parts) == 2
         ctx.check(okr, 'Y4', 'the IKE_SA found or created is asked to negotiate with (source selector, destination selector, entry index)',
                   key=('Y4', 'hand-over'), site=ctx.site(pa, d.node), detail={'receiver': tq.text(recv, 300)})
+        # no ACQUIRE is swallowed by the controller: whatever it returns is what that IKE_SA's process_acquire produced (which queues the
+        # trigger itself when it is busy), on every path that does not raise
+        rets = [(pc, t) for pc, t, _ in A.returns]
+        ctx.check(bool(rets) and all(tq.contains(t, d.term) for _, t in rets) and not d.pc, 'Y4',
+                  'every ACQUIRE is handed to the IKE_SA: each return of the controller\'s process_acquire carries the result of that call',
+                  key=('Y4', 'always-handed-over'), site=ctx.site(pa, d.node),
+                  detail={'returns': [tq.text(t, 160) for _, t in rets], 'hand-over condition': [tq.text(a[0], 120) for a in d.pc]})
 
     # ---------------------------------------------------------------- Y4 IkeSa.process_acquire
     ia = ctx.func('ikesa.IkeSa.process_acquire')
